@@ -731,3 +731,39 @@ def r_nan_transparent(cx):
     cx.ob("R-NAN-TRANSPARENT", "summary", True,
           "%d per-tuple loops contain no NaN-swallowing f64::min / f64::max" % n, nontrivial=n > 0)
     cx.count("R-NAN-TRANSPARENT", "loops", n)
+
+
+_TUPLE_READS = ("get_coord", "xy", "xyz", "xyzt", "xyt")
+
+
+@rule("R-NO-PEEK", ["C02"])
+def r_no_peek(cx):
+    """An operator treats every tuple on its own: it never looks at the tuple in a fixed position of the set to decide
+    something for the others (a missing epoch in the first tuple taken as `the data has no time coordinate`, say). In the
+    operator code (inner_op::, op::, grid::) no tuple of a coordinate set is read at a constant index - the index of a
+    read is the induction value of the per-tuple loop, or comes in through a parameter."""
+    n = 0
+    for name in sorted(cx.f.lib["fns"]):
+        if "::tests::" in name or not name.startswith(("inner_op::", "op::", "grid::")):
+            continue
+        f = cx.f.fn(name)
+        k = 0
+        for bb, t in f.calls():
+            c = t.get("callee") or ""
+            if not (c.startswith("coordinate::set::CoordinateSet::") and c.rsplit("::", 1)[-1] in _TUPLE_READS):
+                continue
+            a = f.arg_terms(bb)
+            if len(a) < 2:
+                continue
+            n += 1
+            idx = mir.strip_refs(a[1])
+            fixed = is_const_num(idx)
+            if fixed or f.innermost_loop(bb) is None:
+                cx.ob("R-NO-PEEK", "%s/read%d" % (name, k), not fixed,
+                      "%s reads a tuple at an index handed in by its caller" % name if not fixed else
+                      "%s reads the tuple at the fixed position %s of the set: what it finds there (e.g. a missing epoch) "
+                      "decides for the whole set, so the result for a tuple depends on which tuple happens to stand there" % (
+                          name, idx[2]), cx.where(t["span"]))
+            k += 1
+    cx.ob("R-NO-PEEK", "summary", True, "%d tuple reads in operator code examined" % n, nontrivial=False)
+    cx.count("R-NO-PEEK", "tuple_reads", n)
